@@ -442,8 +442,10 @@ def _rules_core(repo, tier):
     from ..stale import rule_stale
     from .sparse_c10 import rule_idx, rule_dispatch
     from ..effects import rule_pure
+    from ..outalias import rule_outalias
     return [rule_status(repo, tier), rule_lstsq(repo, tier), rule_zero(repo, tier), rule_stale(repo, 'C10.STALE', [(SOLVER, 'CG.forward')]),
             rule_idx(repo, tier), rule_dispatch(repo, tier), rule_tri(repo, tier), rule_conf(repo, tier),
+            rule_outalias(repo, 'C10.OUT', [(SOLVER, 'CG.forward')]),
             rule_pure(repo, 'C10.PURE', 'no solver writes into the matrix, right-hand side, initial guess or preconditioner it is given: a caller that '
                       'solves again with the same tensors (damping retries, warm starts) solves the same system',
                       [(SOLVER, q) for q in ('PINV.forward', 'LSTSQ.forward', 'Cholesky.forward', 'CG.forward')] +
@@ -452,7 +454,11 @@ def _rules_core(repo, tier):
 
 def rules(repo, tier):
     from ..memo import rule_memo
+    from ..optional import rule_optional
+    from ..axisdefault import rule_axisdefault
     return list(_rules_core(repo, tier)) + [rule_memo(repo, 'C10.MEMO', 'history independence: nothing computed from the contents of a tensor argument is kept '
                                                       'under the identity, address or version of that tensor, in module-level storage, or published from a generator '
                                                       'before it is complete - a later call with the same object and other contents must not be answered from it',
-                                                      ['pypose.optim.solver', 'pypose.sparse.ops'], floor=3)]
+                                                      ['pypose.optim.solver', 'pypose.sparse.ops'], floor=3),
+            rule_optional(repo, 'C10.OPT', ['pypose.optim.solver', 'pypose.sparse.ops']),
+            rule_axisdefault(repo, 'C10.AXDEF', ['pypose.optim.solver', 'pypose.sparse.ops'])]
